@@ -59,10 +59,11 @@ func (e *refEval) fields(typ string, sets [][]*Node, topUnion bool, out *[]*Node
 			case "field":
 				*out = append(*out, n)
 			case "inline":
-				if topUnion && n.On != typ {
+				if topUnion && n.On != typ && n.On != "" {
 					continue
 				}
-				e.fields(typ, [][]*Node{n.Sub}, false, out)
+				// without a type condition the fragment applies to the enclosing type
+				e.fields(typ, [][]*Node{n.Sub}, topUnion && n.On == "", out)
 			case "spread":
 				f := e.frags[n.Frag]
 				if topUnion && f.On != typ {
